@@ -2,10 +2,13 @@
 C13 — models of the size-prefixed ammo framings (uripost, raw), of the uri format and of the
 `[key: value]` header line decoder, as checked (`Res`) functions.
 
-`fixed = false` is the code of the unrepaired tree (components/providers/http/decoders/{uripost,raw}.go:
-`make([]byte, size)` straight from the announced size); `fixed = true` is the behaviour after
-fixes/C13-ammo-size.diff (`readSized`: negative ⇒ error, otherwise read at most what is there).
-The theorems in Props/C13.lean are about `fixed = true`; the defect of `fixed = false` is exhibited there too.
+`fixed = false` is the code of the tree as found (components/providers/http/decoders/{uripost,raw}.go:
+`make([]byte, size)` straight from the announced size); `fixed = true` is the code of /repo now
+(`readSized`, commit 8bca4e3: negative ⇒ error, otherwise read at most what is there).
+The theorems in Props/C13.lean are about `fixed = true`; the defect of `fixed = false` is refuted there.
+
+The last line of a file may lack its `\n`: the uripost decoder decodes it (`ReadString` returns it together
+with io.EOF, commit df9a0d4), the raw decoder drops it (`Run.rest` keeps what was dropped).
 
 `url.Parse` is a library: it is a parameter `urlOk` of the model (all theorems hold for every oracle).
 One pass over the file (`passes = 1`): the end of data is `End.ok`.
@@ -83,9 +86,16 @@ def endOfRes {α} : Res α → End
   | .panic _ => .panic
   | .fatal _ => .fatal
 
-/-- `reader.ReadString('\n')`: the line (without its terminator) and what follows; `none` = io.EOF
-(data returned together with EOF is dropped by both decoders) -/
+/-- `reader.ReadString('\n')` as the raw decoder uses it: the line (without its terminator) and what follows;
+`none` = io.EOF (data returned together with EOF - an unterminated last line - is dropped) -/
 def readLine (s : Bytes) : Option (Bytes × Bytes) := cut s 10
+
+/-- `reader.ReadString('\n')` as `uripostDecoder.readBlock` uses it: an unterminated last line is a line
+(`err == io.EOF && len(data) > 0` is not the end); `none` = io.EOF with no data -/
+def readLineU (s : Bytes) : Option (Bytes × Bytes) :=
+  match cut s 10 with
+  | some p => some p
+  | none => if s.isEmpty then none else some (s, [])
 
 /-- reading `size` announced bytes from `rest`.
 old code: `buff := make([]byte, size); io.ReadFull(reader, buff)`; repaired: `readSized`. -/
@@ -148,7 +158,7 @@ def uripostLine (fixed : Bool) (urlOk : Bytes → Bool) (line rest : Bytes) : St
 
 /-- one `readBlock` call of the uripost decoder -/
 def uripostStep (fixed : Bool) (urlOk : Bytes → Bool) (s : Bytes) : Step :=
-  match readLine s with
+  match readLineU s with
   | none => .eof
   | some (line, rest) => uripostLine fixed urlOk line rest
 
@@ -203,6 +213,7 @@ inductive LineRes where
   | skip
   | entry (e : Entry)
   | fail (e : End)
+  deriving Repr, DecidableEq
 
 /-- `uriDecoder.readLine` -/
 def uriLine (urlOk : Bytes → Bool) (line : Bytes) : LineRes :=
@@ -229,5 +240,60 @@ def uriLines (urlOk : Bytes → Bool) : List Bytes → Run
     | .fail e => ⟨[], e, []⟩
 
 def uriRun (urlOk : Bytes → Bool) (s : Bytes) : Run := uriLines urlOk (split s 10)
+
+/-! ### grpc/json (components/providers/grpc/grpcjson/provider.go): `bufio.Scanner` lines, each handed to jsoniter
+
+jsoniter is a library: `json l = some tag` when it decodes the line (all theorems hold for every oracle).
+One pass (`passes = 1`), no limit, no chosen cases. -/
+
+/-- `bufio.MaxScanTokenSize`: a line that does not fit the scanner's buffer ends the run with `ErrTooLong` -/
+def maxToken : Nat := 65536
+
+/-- `dropCR` of `bufio.ScanLines` -/
+def dropCR (l : Bytes) : Bytes := if l.getLast? = some 13 then l.dropLast else l
+
+/-- the tokens of `bufio.ScanLines` before `dropCR`: no token for the empty remainder after the last `\n` -/
+def rawLines (s : Bytes) : List Bytes :=
+  let ls := split s 10
+  if ls.getLast? = some [] then ls.dropLast else ls
+
+inductive GEntry where
+  | valid (tag : Bytes)
+  | invalid            -- `a.Invalidate()`: delivered, skipped by the gun
+  deriving Repr, DecidableEq
+
+structure GRun where
+  entries : List GEntry
+  end_ : End
+  deriving Repr, DecidableEq
+
+def GRun.cons (e : GEntry) (r : GRun) : GRun := { r with entries := e :: r.entries }
+def GRun.prepend (es : List GEntry) (r : GRun) : GRun := { r with entries := es ++ r.entries }
+
+/-- the scan loop of `Provider.start`; `coe` = `continue_on_error` -/
+def grpcLines (coe : Bool) (json : Bytes → Option Bytes) : List Bytes → GRun
+  | [] => ⟨[], .ok⟩
+  | l :: rest =>
+    if l.length ≥ maxToken then ⟨[], .err "toolong"⟩
+    else match json (dropCR l) with
+      | some tag => (grpcLines coe json rest).cons (.valid tag)
+      | none => if coe then (grpcLines coe json rest).cons .invalid else ⟨[], .err "other"⟩
+
+def grpcRun (coe : Bool) (json : Bytes → Option Bytes) (s : Bytes) : GRun := grpcLines coe json (rawLines s)
+
+/-- what `Provider.start` does when a pass over the file is over (`passNum` passes done, `ammoNum` entries delivered
+so far): stop, or seek to the start and scan again. `fixed = false`: the tree as found, without the
+`ammoNum == 0` test (commit 92ad194). -/
+inductive PassEnd where
+  | stop (e : End)
+  | again
+  deriving Repr, DecidableEq
+
+def grpcPassEnd (fixed : Bool) (limit passes passNum ammoNum : Nat) (scanErr : Bool) : PassEnd :=
+  if scanErr then .stop (.err "toolong")
+  else if limit ≠ 0 ∧ ammoNum ≥ limit then .stop .ok
+  else if passes ≠ 0 ∧ passNum ≥ passes then .stop .ok
+  else if fixed ∧ ammoNum = 0 then .stop (.err "noammo")
+  else .again
 
 end Pandora.Model.C13
